@@ -25,10 +25,11 @@ const (
 	HNewEQ
 	HNewCEQ
 	HNewCPQ
+	HNewTarget // a long-lived distance target object, reused by later EdgeQuery calls
 	NumHKinds
 )
 
-var hNames = [...]string{"Query", "Add", "Build", "Reset", "Invert", "Normalize", "EncodeDecode", "NewEdgeQuery", "NewCrossingEdgeQuery", "NewContainsPointQuery"}
+var hNames = [...]string{"Query", "Add", "Build", "Reset", "Invert", "Normalize", "EncodeDecode", "NewEdgeQuery", "NewCrossingEdgeQuery", "NewContainsPointQuery", "NewTarget"}
 
 // mutation kinds recorded for loops/polygons
 const (
@@ -67,6 +68,16 @@ func (h *HStep) String() string {
 		return fmt.Sprintf("NewEdgeQuery(obj%d,%s)", h.Obj, h.EQ)
 	case HNewCPQ:
 		return fmt.Sprintf("NewContainsPointQuery(obj%d,model=%d)", h.Obj, int(h.Model))
+	case HNewTarget:
+		far := "Min"
+		if h.Q.EQ.Furthest {
+			far = "Max"
+		}
+		s := fmt.Sprintf("New%sDistanceTarget(%s", far, tNames[h.Q.TK])
+		if h.Q.TK == TIndex {
+			s += fmt.Sprintf(":obj%d", h.Q.Obj2)
+		}
+		return s + ")"
 	}
 	return fmt.Sprintf("%s(obj%d)", hNames[h.Kind], h.Obj)
 }
@@ -87,6 +98,8 @@ type symQ struct {
 	cpqObj []int
 	cpqMod []s2.VertexModel
 	cpqOK  []bool
+	tgtOp  []Op // template: TK, P, Q, Cell, Obj2, EQ.Furthest
+	tgtOK  []bool
 }
 
 func cloneInts(a []int) []int { return append([]int(nil), a...) }
@@ -139,8 +152,10 @@ func drawHistory(g *gen.G, descs []*ObjDesc, maxSteps int) []HStep {
 				h.Kind = HBuild
 			case k < 15:
 				h.Kind = HReset
-			case k < 17:
+			case k < 16:
 				h.Kind = HNewEQ
+			case k < 17:
+				h.Kind = HNewTarget
 			case k < 18:
 				h.Kind = HNewCEQ
 			default:
@@ -189,6 +204,25 @@ func drawHistory(g *gen.G, descs []*ObjDesc, maxSteps int) []HStep {
 			sq.eqOpt = append(sq.eqOpt, h.EQ)
 			sq.eqOK = append(sq.eqOK, true)
 			focusFam, focusID, focusObj, focusLeft = HNewEQ, len(sq.eqObj)-1, obj, 2+int(t.Uint(5))
+		case HNewTarget:
+			tq := drawQueryOn(g, descs, obj)
+			tq.TK = int(t.Uint(NumTKinds))
+			if t.Chance(500) {
+				tq.TK = TIndex // the target kind that has state of its own
+			}
+			tq.EQ.Furthest = t.Chance(300)
+			if tq.TK == TIndex {
+				var cands []int
+				for i, e := range descs {
+					if e.Kind == OIndex {
+						cands = append(cands, i)
+					}
+				}
+				tq.Obj2 = cands[int(t.Uint(uint32(len(cands))))]
+			}
+			h.Q = tq
+			sq.tgtOp = append(sq.tgtOp, tq)
+			sq.tgtOK = append(sq.tgtOK, true)
 		case HNewCEQ:
 			sq.ceqObj = append(sq.ceqObj, obj)
 			sq.ceqOK = append(sq.ceqOK, true)
@@ -257,6 +291,19 @@ func drawHistory(g *gen.G, descs []*ObjDesc, maxSteps int) []HStep {
 					}
 				}
 				if q.Kind == QFindEdges || q.Kind == QDistance || q.Kind == QIsDistLess || q.Kind == QIsConsDist {
+					// a long-lived target of the right sense (closest/furthest), when there is one
+					var tc []int
+					for i := range sq.tgtOp {
+						if sq.tgtOK[i] && sq.tgtOp[i].EQ.Furthest == q.EQ.Furthest {
+							tc = append(tc, i)
+						}
+					}
+					if len(tc) > 0 && t.Chance(500) {
+						ti := tc[int(t.Uint(uint32(len(tc))))]
+						tp := sq.tgtOp[ti]
+						q.TK, q.P, q.Q, q.Cell, q.Obj2 = tp.TK, tp.P, tp.Q, tp.Cell, tp.Obj2
+						q.ReuseT = ti + 1
+					}
 					if q.Reuse < 0 && t.Chance(150) {
 						q.EQ.MaxError = s1.ChordAngleFromAngle(s1.Angle(t.Float() * 0.05))
 					}
@@ -265,7 +312,7 @@ func drawHistory(g *gen.G, descs []*ObjDesc, maxSteps int) []HStep {
 			if od.Kind == OIndex {
 				// ask about an earlier edge / point / cell of this object again: per-query caches
 				// keyed by their arguments only show up when arguments repeat
-				if prev := lastArgs[q.Obj]; len(prev) > 0 && t.Chance(300) {
+				if prev := lastArgs[q.Obj]; len(prev) > 0 && q.ReuseT == 0 && t.Chance(300) {
 					pa := prev[int(t.Uint(uint32(len(prev))))]
 					q.P, q.Q, q.Cell = pa.P, pa.Q, pa.Cell
 				}
@@ -300,6 +347,13 @@ func (sq *symQ) invalidate(obj int) {
 	for i := range sq.cpqObj {
 		if sq.cpqObj[i] == obj {
 			sq.cpqOK[i] = false
+		}
+	}
+	// a ShapeIndex target keeps a private query on its index and has no reset: it is not used
+	// again once that index changed
+	for i := range sq.tgtOp {
+		if sq.tgtOp[i].TK == TIndex && sq.tgtOp[i].Obj2 == obj {
+			sq.tgtOK[i] = false
 		}
 	}
 }
@@ -512,6 +566,8 @@ func runC13(rc *runCtx) *RunResult {
 				qs.EQ = append(qs.EQ, h.EQ.newQuery(o.Index))
 				qs.EQOpt = append(qs.EQOpt, h.EQ)
 				qs.EQObj = append(qs.EQObj, h.Obj)
+			case HNewTarget:
+				qs.Tgt = append(qs.Tgt, targetCalls(&h.Q, world, true))
 			case HNewCEQ:
 				qs.CEQ = append(qs.CEQ, s2.NewCrossingEdgeQuery(o.Index))
 				qs.CEObj = append(qs.CEObj, h.Obj)
@@ -557,6 +613,9 @@ func runC13(rc *runCtx) *RunResult {
 			if steps[i].Q.Reuse >= 0 {
 				rc.inc("probe_query_reuse", 1)
 			}
+			if steps[i].Q.ReuseT > 0 {
+				rc.inc("probe_target_reuse", 1)
+			}
 		}
 	}
 	res.Nontrivial = nq >= 1 && len(steps) >= 2 && len(kinds) >= 2
@@ -592,8 +651,9 @@ func runC13(rc *runCtx) *RunResult {
 		if h.Kind != HQuery || !h.done {
 			continue
 		}
-		q := h.Q // copy; the reference always uses a fresh query object
+		q := h.Q // copy; the reference always uses a fresh query object and a fresh target
 		q.Reuse = -1
+		q.ReuseT = 0
 		variants := 1
 		od := descs[q.Obj]
 		if od.Kind != OIndex && allInverts(h.MutsA) && len(h.MutsA) >= 2 {
